@@ -143,7 +143,11 @@ func (l *Gpos6_1) apply(ctx *Context, a, b int) int {
 	if p < 0 {
 		return -1
 	}
-	mark2Record := l.Mark2Array[mark2Idx][mark1Record.Class]
+	row := l.Mark2Array[mark2Idx]
+	if int(mark1Record.Class) >= len(row) {
+		return -1
+	}
+	mark2Record := row[mark1Record.Class]
 	if mark2Record.IsEmpty() {
 		// TODO(voss): verify that this is what others do, too.
 		return -1
